@@ -1,9 +1,12 @@
 """C02 side stream: conditions that contain PREDICATES / symbolic functions next to comparisons.
 
-The condition syntax of Eql/Syntax.v has no predicate calls, so these queries have no Coq model; C02's property text,
-however, names them ("comparisons, predicates and negated atoms with and_, and with or_ only between conditions over the
-same variables").  They are compared, as MULTISETS, with a direct Python evaluation of the same condition over the
-product of the domains (exactly one row per satisfying assignment).  Any disagreement is a VIOLATION.
+The condition syntax of Eql/Syntax.v has no predicate calls; C02's property text, however, names them ("comparisons,
+predicates and negated atoms with and_, and with or_ only between conditions over the same variables").  Their model
+and Spec are Eql/PredCond.v (condition syntax with predicate atoms, evaluator peval, first-order Spec psat), theorems
+Props/C02b.v.  Every case is evaluated three ways -- implementation (public API), model and Spec (both inside Coq by
+vm_compute, Eql/PredCondShow.v) -- and compared as MULTISETS; the direct Python evaluation below is kept as a cross-check
+of the Coq Spec.  Inside the fragment (flag pe_in_F, theorem C02b_fragment_flag) any disagreement with the Spec is a
+VIOLATION; outside it (or_ over different variables = Union, negated compound conditions) only implementation vs model.
 
 This stream found C02-a: or_(f(x), g(x)) over symbolic functions built a Union (each call is a variable of its own, so the
 two sides never had "the same variables") and yielded every assignment satisfying both sides twice; fixed in /repo."""
@@ -13,7 +16,44 @@ import itertools
 import json
 from typing import Any, Dict, List
 
+from . import core
 from .core import Rng
+
+HEADER = """From Coq Require Import List ZArith.
+From Krrood Require Import Base.Sx Eql.Syntax Eql.PredCond Eql.PredCondShow.
+Import ListNotations. Open Scope Z_scope."""
+VARNO = {"x": 0, "y": 1}
+PREDNO = {"p_even": 0, "p_small": 1, "p_pos": 2, "p_lt": 3, "p_sum3": 4, "p_same": 5}
+OPNAME = {"==": "OpEq", "!=": "OpNe", "<": "OpLt", "<=": "OpLe", ">": "OpGt", ">=": "OpGe"}
+
+
+def _opnd(e) -> str:
+    return f"(OVar {VARNO[e[1]]}%nat)" if e[0] == "var" else f"(OLit (VI {core.zlit(e[1])}))"
+
+
+def cond_term(c) -> str:
+    k = c[0]
+    if k == "cmp":
+        return f"(PCmp {OPNAME[c[1]]} {_opnd(c[2])} {_opnd(c[3])})"
+    if k == "pred":
+        return f"(PPred {PREDNO[c[1]]}%nat [{'; '.join(_opnd(e) for e in c[2])}])"
+    if k == "not":
+        return f"(mk_pnot {cond_term(c[1])})"
+    if k == "and":
+        return f"(mk_pand {cond_term(c[1])} {cond_term(c[2])})"
+    return f"(mk_por {cond_term(c[1])} {cond_term(c[2])})"     # or_: the constructor's own decision, inside Coq
+
+
+def case_term(case) -> str:
+    doms = "; ".join(f"({VARNO[n]}%nat, {core.zlist(case['doms'][n])})" for n in case["vars"])
+    sels = "; ".join(f"{VARNO[n]}%nat" for n in case["vars"])
+    return f"{{| pe_doms := [{doms}]; pe_sels := [{sels}]; pe_cond := {cond_term(case['cond'])} |}}"
+
+
+def rows_sx(rows) -> str:
+    if rows and rows[0] == "exc":
+        return "SZ (-1)"
+    return core.sx([[int(v) for v in r] for r in rows])
 
 OPS = {"==": lambda a, b: a == b, "!=": lambda a, b: a != b, "<": lambda a, b: a < b, "<=": lambda a, b: a <= b,
        ">": lambda a, b: a > b, ">=": lambda a, b: a >= b}
@@ -70,6 +110,7 @@ def holds(c, env) -> bool:
 
 
 def gen(rng: Rng) -> dict:
+    wild = rng.chance(0.15)      # outside C02's scope: or_ over different variables (Union), negated compound conditions
     names = ["x"] if rng.chance(0.45) else ["x", "y"]
     doms = {n: rng.sample([0, 1, 2, 3, 4], rng.randint(1, 4)) for n in names}
 
@@ -95,6 +136,10 @@ def gen(rng: Rng) -> dict:
             a = atom()
             return ["not", a] if rng.chance(0.25) else a
         l, rr = cond(d - 1), cond(d - 1)
+        if wild and r > 0.85:
+            return ["not", ["and", l, rr]] if rng.chance(0.5) else ["not", ["or", l, rr]]
+        if wild and r > 0.6:
+            return ["or", l, rr]
         if r < 0.6 or set(cvars(l)) != set(cvars(rr)) or not cvars(l):
             return ["and", l, rr]
         return ["or", l, rr]          # or_ only between conditions over the same variables (C02's scope)
@@ -153,24 +198,83 @@ def snippet(case) -> str:
 def stream(rep, rng: Rng, tier: str) -> None:
     """run the predicate stream and record its results in the report"""
     n = 400 if tier == "quick" else 6000
-    bad = 0
-    npred_or = nonempty = 0
     corpus = [{"vars": ["x"], "doms": {"x": [0, 1, 2, 3, 4]},
                "cond": ["or", ["pred", "p_small", [["var", "x"]]], ["pred", "p_even", [["var", "x"]]]]}]   # C02-a
     cases = corpus + [gen(rng.fork(i)) for i in range(n)]
-    for c in cases:
-        got, want = run_impl(c), spec(c)
+    # theorems and model of the predicate bridge
+    ok, log = core.coq_make(["Props/C02b.vo"])
+    rep.oblige("build:Props/C02b.vo", ok, "" if ok else core.first_error(log))
+    model_ok = ok
+    if ok:
+        ok2, ass, out = core.print_assumptions("C02b")
+        if not ok2:
+            rep.oblige("props:C02b", False, core.first_error(out))
+            model_ok = False
+        else:
+            rep.assumptions.update(ass)
+            for thm in core.theorem_names("C02b"):
+                a = ass.get(thm)
+                if a is not None:
+                    rep.oblige(f"theorem:{thm}", a.startswith("Closed under the global context"), a[:300])
+    impls = [run_impl(c) for c in cases]
+    specs = [spec(c) for c in cases]
+    codes = None
+    if model_ok:
+        try:
+            codes = core.coq_codes("C02", HEADER, "pecase", "pe_code_x",
+                                   [(case_term(c), "SL [" + rows_sx(i) + "; " + rows_sx(sp) + "]") for c, i, sp in zip(cases, impls, specs)],
+                                   chunk=200, tag="pred")
+        except Exception as e:  # noqa
+            rep.oblige("correspondence:predicate-model", False, f"cases could not be evaluated in Coq: {str(e)[:300]}")
+    else:
+        rep.note("predicate stream: model not available; comparing the implementation with the direct Python evaluation only")
+    bad = stale = outside = outside_differs = spec_mismatch = 0
+    npred_or = nonempty = 0
+
+    def report(c, got, want, why, code=None):
+        rep.violation({"kind": "counterexample", "origin": "predicate stream", "case": c, "impl": got, "spec": want, "code": code,
+                       "compared_as": "bag", "python": snippet(c),
+                       "explanation": why + " -- a query whose condition contains symbolic-function calls; impl = sorted rows of "
+                                      "an(entity/set_of(...)).evaluate(); spec = one row per satisfying assignment (Eql/PredCond.v psat, "
+                                      "cross-checked by a direct Python evaluation); code = 100*class (0 in the fragment of C02b_fragment_flag, "
+                                      "1 outside) + k (0 agree, 1 impl=spec but model differs, 2 impl=model but not spec, 3 impl differs from both)"})
+
+    for idx, c in enumerate(cases):
+        got, want = impls[idx], specs[idx]
         rep.count("pred:" + json.dumps(c, sort_keys=True), bool(want))
         nonempty += int(bool(want))
         npred_or += int('"or"' in json.dumps(c["cond"]) and '"pred"' in json.dumps(c["cond"]))
-        if got != want:
-            bad += 1
-            if bad <= 2:
-                rep.violation({"kind": "counterexample", "origin": "predicate stream", "case": c, "impl": got, "spec": want,
-                               "compared_as": "bag", "python": snippet(c),
-                               "explanation": "a query whose condition contains symbolic-function calls; impl = sorted rows of "
-                                              "an(entity/set_of(...)).evaluate(); spec = one row per satisfying assignment "
-                                              "(direct Python evaluation over the product of the domains)"})
-    rep.extra["predicate_stream"] = {"cases": len(cases), "nonempty": nonempty, "or_with_predicates": npred_or, "disagreements": bad}
+        if codes is None:
+            if got != want:
+                bad += 1
+                if bad <= 2:
+                    report(c, got, want, "implementation differs from the direct evaluation (no Coq model available)")
+            continue
+        code = codes[idx]
+        if code >= 1000:
+            spec_mismatch += 1
+            code -= 1000
+            rep.oblige("correspondence:predicate-spec", False, f"Coq Spec and direct Python evaluation disagree on {json.dumps(c)[:300]}")
+        cls, k = divmod(code, 100)
+        if cls == 1:
+            outside += 1
+            if k in (1, 3):      # implementation differs from the model: the property is silent here, the tie is not
+                rep.oblige("correspondence:predicate-model", False, f"model differs from impl outside the fragment on {json.dumps(c)[:300]}")
+            elif k == 2:
+                outside_differs += 1
+            continue
+        if k == 0:
+            continue
+        if k == 1:
+            stale += 1
+            rep.oblige("correspondence:predicate-model", False, f"model differs from impl (=spec) on {json.dumps(c)[:300]}")
+            continue
+        bad += 1
+        if bad <= 2:
+            report(c, got, want, "inside the fragment the rows must be exactly one per satisfying assignment", code)
+    rep.extra["predicate_stream"] = {"cases": len(cases), "nonempty": nonempty, "or_with_predicates": npred_or, "disagreements": bad,
+                                     "three_way_in_coq": codes is not None, "outside_fragment": outside,
+                                     "outside_fragment_bag_differs_as_model_predicts": outside_differs,
+                                     "model_stale": stale, "spec_cross_check_mismatches": spec_mismatch}
     rep.oblige("correspondence:predicate-stream", bad == 0,
-               f"{len(cases)} queries with predicates compared as multisets with a direct evaluation; {bad} disagree")
+               f"{len(cases)} queries with predicates compared as multisets, implementation / model / Spec; {bad} disagree")
